@@ -223,6 +223,12 @@ def mk_list():
             with vsc.foreach(self.l, idx=True) as i:
                 self.l[i] < 3
             self.l.sum > self.n
+
+        # a foreach that is only reachable through the inline constraints of a call
+        @vsc.dynamic_constraint
+        def dsm(self):
+            with vsc.foreach(self.l, idx=True) as i:
+                self.l[i] != 1
     return L
 
 
@@ -320,6 +326,7 @@ def unsat_call(o, kind, debug=0):
         if kind == "plain":
             it.a > it.b
         elif kind == "list":
+            it.dsm()
             it.l[0] == 3
         elif kind == "dist":
             it.a == 3
